@@ -2,7 +2,7 @@
      msep_dec g X Y Z = true  <->  msep g X Y Z        (only hypothesis: Z is a set of nodes of g)
    [paths_from] enumerates exactly the simple step-paths, [open_inner_b] reflects [open_inner] via [anc_of_spec]. *)
 From Coq Require Import List Arith Bool Lia.
-From PG Require Import Base.ListSet Base.Closure Base.Sx Graph.MGraph Graph.MSep.
+From PG Require Import Base.ListSet Base.Closure Graph.MGraph Graph.MSep.
 Import ListNotations.
 
 Lemma next_steps_In g a visited k b :
